@@ -15,6 +15,7 @@ import (
 
 func init() {
 	vfHarnesses["C11_ack"] = vfH_C11_ack
+	vfHarnesses["C11_ack5"] = vfH_C11_ack5
 }
 
 func vfAckFrame(cmd *protocol.LockCommand, aofId [16]byte, result uint8) *protocol.LockResultCommand {
@@ -27,7 +28,12 @@ func vfAckFrame(cmd *protocol.LockCommand, aofId [16]byte, result uint8) *protoc
 	return r
 }
 
-func vfH_C11_ack() {
+var vfC11Events = 4
+
+func vfH_C11_ack()  { vfC11Events = 4; vfC11Ack() }
+func vfH_C11_ack5() { vfC11Events = 5; vfC11Ack() }
+
+func vfC11Ack() {
 	dir := vfFSDir()
 	env := vfNewEnv(2)
 	vfSetDBTime(env.db, vfBaseTime)
@@ -63,7 +69,7 @@ func vfH_C11_ack() {
 	vfAssert(int(ackdb.ackCount) == need, "C11: required acknowledgement count differs from followers+1 (all) / majority")
 
 	flushed, okAcks, ended := false, 0, false
-	for step := 0; step < 4 && !ended; step++ {
+	for step := 0; step < vfC11Events && !ended; step++ {
 		ev := vfChoice(vfName("ev", step), 6)
 		n := len(env.replies)
 		switch ev {
